@@ -50,7 +50,8 @@ impl AdjustHeightsHeap {
         }
         debug_assert!(self.is_empty());
         debug_assert_eq!(calculate_len(&self.queues), 0);
-        self.queues.resize(new_mha, VecDeque::new());
+        self.queues.resize(new_mha + 1, VecDeque::new());
+        self.height_lower_bound = self.max_height_allowed() + 1;
     }
     pub(crate) fn add_unless_mem(&mut self, node: NodeRef) {
         if node.height_in_adjust_heights_heap().get() == -1 {
